@@ -125,4 +125,22 @@ def chainOf (blocks main : List (Nat × Nat)) : Chain where
     | none => none
     | some id => (lookup blocks id).map (fun hh => ⟨id, hh⟩)
 
+/-! ### the source shapes this model was written against (tied to the Go source by
+    `Ties/C33`, regenerated facts in `Gen/SyncFacts.lean`) -/
+namespace Src
+def maxNumOfBlocksPerMsg : Nat := 64
+def maxNumOfHeadersPerMsg : Nat := 1000
+def locateHeadersSig : String := "func(locator []*bc.Hash, stopHash *bc.Hash, skip uint64, maxNum uint64) ([]*types.BlockHeader, error)"
+def loopInit : String := "num, index := uint64(0), startHeader.Height"
+def loopCond : String := "num < maxNum-1"
+def loopPost : String := "num++"
+def loopUpdate : String := "index += skip + 1"
+def loopStopTest : String := "index >= stopHeader.Height"
+def locateHeadersIfs : List String := ["err != nil", "err == nil && bk.chain.InMainChain(header.Hash())", "err != nil", "!bk.chain.InMainChain(*stopHash) || stopHeader.Height < startHeader.Height", "stopHeader.Height == startHeader.Height", "index >= stopHeader.Height", "err != nil"]
+def locateHeadersSha : String := "6495edfb5ca0bb751c8389dc4023d00c77e1ba38348885b7f5629385396fb1ce"
+def locateBlocksCall : String := "bk.locateHeaders(locator, stopHash, 0, maxNumOfBlocksPerMsg)"
+def locateBlocksSha : String := "417bc4f15d04b0c535b620d4cebe3930eb0396b6e5d27af5bb37e55e97b62519"
+def handlerCalls : List String := ["m.blockKeeper.locateBlocks(msg.GetBlockLocator(), msg.GetStopHash(), isTimeout)", "m.blockKeeper.locateHeaders(msg.GetBlockLocator(), msg.GetStopHash(), msg.GetSkip(), maxNumOfHeadersPerMsg)"]
+end Src
+
 end BytomModel.Model.Sync
